@@ -163,3 +163,331 @@ def retype_at(data: bytes, lit: int, val: int) -> bytes:
     lits = list(_LITERAL.finditer(data))
     m = lits[lit % len(lits)]
     return data[: m.start()] + RETYPE[val % len(RETYPE)] + data[m.end():]
+
+
+# ------------------------------------------------------------------------------------------ commented zoo
+# COMMENTED[lang] is valid code in which every comment form of the language (line, doc, inner doc, block, block doc,
+# nested block, multi-line block, docstring, directive-like, trailing) stands in every member position: before and after
+# each member of a struct / enum / impl / trait / class / interface / object literal / function body, first and last in a
+# body, between decorators / attributes and the item, and as the last line of the file. Comments are nodes of their own
+# in the tree-sitter grammars (a Rust `///` line ends on the NEXT row) and lines of their own for the line-oriented
+# analysers; cut at a line boundary (c11 "linecut" matrix) every one of them becomes the last thing in an open construct.
+
+COMMENTED = {}
+
+COMMENTED["rs"] = '''//! Inner doc comment of the file.
+
+/// Doc comment of the struct.
+#[derive(Debug)]
+pub struct NotedBox {
+    /// Doc comment of a field.
+    pub count_noted: i32, // trailing comment
+    /* block comment in a struct body */
+    label_noted: String,
+    // comment last in the struct body
+}
+
+/** Block doc comment of the enum. */
+pub enum NotedShade {
+    /// Doc comment of a variant.
+    Red,
+    // comment between variants
+    Green, /* trailing block comment */
+}
+
+/// Doc comment of the impl block.
+impl NotedBox {
+    //! Inner doc comment of the impl block.
+
+    /// Doc comment of a method.
+    pub fn total_noted(&self) -> i32 {
+        // comment first in a body
+        let base_noted = self.count_noted; // trailing comment
+        /* block comment
+           over two lines */
+        base_noted
+        // comment last in a body
+    }
+
+    /** Block doc comment
+     * of a method.
+     */
+    pub fn label_noted(&self) -> &str {
+        &self.label_noted
+    }
+    /// Doc comment of the last method.
+    #[inline]
+    // comment between attribute and item
+    pub fn reset_noted(&mut self) {
+        self.count_noted = 0; /* nested /* block */ comment */
+    }
+    // comment last in the impl block
+}
+
+/// Doc comment of the trait.
+pub trait NotedTrait {
+    /// Doc comment of a trait method.
+    fn describe_noted(&self) -> String;
+}
+
+impl NotedTrait for NotedBox {
+    /// Doc comment in a trait impl.
+    fn describe_noted(&self) -> String {
+        match self.count_noted {
+            // comment before a match arm
+            0 => String::new(), // trailing comment
+            /* block comment before the last arm */
+            _ => self.label_noted.clone(),
+        }
+    }
+}
+
+/// Doc comment of a struct without a body.
+pub struct NotedUnit;
+// comment last in the file
+'''
+
+COMMENTED["py"] = '''#!/usr/bin/env python3
+# -*- coding: utf-8 -*-
+"""Module docstring of the commented zoo.
+
+Second paragraph of the module docstring.
+"""
+# comment after the module docstring
+import os  # trailing comment
+
+
+# comment before a decorated class
+class NotedBox:
+    """Docstring of the class."""
+
+    # comment before a class attribute
+    kind_noted: str = "plain"  # trailing comment
+
+    def __init__(self, count_noted):
+        # comment first in a body
+        self.count_noted = count_noted
+        # comment last in a body
+
+    @property
+    # comment between decorator and def
+    def label_noted(self):
+        """Docstring of a property.
+
+        Over several lines.
+        """
+        return self.kind_noted
+
+    def total_noted(self, extra_noted):  # type: (int) -> int
+        \'\'\'Docstring in single quotes.\'\'\'
+        if extra_noted:
+            # comment first in an if body
+            return self.count_noted + extra_noted
+        else:
+            # the else body starts with a comment
+            pass
+        return self.count_noted
+
+    def reset_noted(self):
+        r"""Raw docstring with a \\d escape."""
+        self.count_noted = 0
+        # comment last in the class
+
+
+def helper_noted(items_noted):
+    # comment instead of a docstring
+    table_noted = {
+        # comment in a dict display
+        "red": items_noted,  # trailing comment
+        # comment last in a dict display
+    }
+    return [
+        entry_noted  # comment in a comprehension
+        for entry_noted in table_noted
+        # comment before the closing bracket
+    ]
+
+
+async def pull_noted(src_noted):
+    """Docstring of an async function."""
+    try:
+        # comment first in a try body
+        return await src_noted
+    except OSError:  # trailing comment after except
+        # comment first in a handler
+        return None
+    finally:
+        # comment first in finally
+        os.sep
+# comment last in the file
+'''
+
+COMMENTED["ts"] = '''/// <reference types="node" />
+/**
+ * File header block comment of the commented zoo.
+ */
+// comment before an import
+import { alphaNoted } from "./things"; // trailing comment
+
+/** Doc comment of the interface. */
+interface NotedShape {
+    /** Doc comment of a member. */
+    countNoted: number; // trailing comment
+    // comment between members
+    labelNoted?: string;
+    /* block comment last in the interface */
+}
+
+// comment before the enum
+enum NotedShade {
+    /** Doc comment of an enum member. */
+    Red = "red", // trailing comment
+    // comment between enum members
+    Green = "green",
+    /* block comment last in the enum */
+}
+
+/**
+ * Doc comment of the class
+ * over several lines.
+ */
+// comment between doc comment and class
+export class NotedBox implements NotedShape {
+    // comment first in the class body
+    countNoted = 0; // trailing comment
+    /** Doc comment of a field. */
+    private labelNotedValue: string = "plain";
+
+    /**
+     * Doc comment of the constructor.
+     * @param startNoted initial value
+     */
+    constructor(startNoted: number) {
+        // comment first in a body
+        this.countNoted = startNoted;
+        // comment last in a body
+    }
+
+    /** Doc comment of a getter. */
+    get labelNoted(): string {
+        return this.labelNotedValue; /* trailing block comment */
+    }
+
+    // line comment before a method
+    totalNoted(extraNoted: number): number {
+        /* block comment
+           over two lines */
+        if (extraNoted) {
+            // comment first in an if body
+            return this.countNoted + extraNoted;
+        } else {
+            // the else body starts with a comment
+        }
+        return this.countNoted;
+    }
+
+    /** Doc comment of the last method. */
+    resetNoted(): void {
+        this.countNoted = 0;
+    }
+    // comment last in the class body
+}
+
+/** Doc comment of a function. */
+export function helperNoted(itemsNoted: string[]): object {
+    const tableNoted = {
+        // comment in an object literal
+        red: itemsNoted, // trailing comment
+        /** doc comment in an object literal */
+        green: alphaNoted,
+        // comment last in an object literal
+    };
+    return itemsNoted.map((entryNoted) => {
+        // comment first in an arrow body
+        return tableNoted ?? entryNoted;
+    } /* comment before the closing parenthesis */);
+}
+// comment last in the file
+'''
+
+COMMENTED["js"] = '''#!/usr/bin/env node
+/**
+ * File header block comment of the commented zoo.
+ */
+// comment before an import
+import { alphaNoted } from "./things"; // trailing comment
+
+/**
+ * Doc comment of the class
+ * over several lines.
+ */
+// comment between doc comment and class
+export class NotedBox {
+    // comment first in the class body
+    countNoted = 0; // trailing comment
+    /** Doc comment of a field. */
+    #labelNotedValue = "plain";
+
+    /**
+     * Doc comment of the constructor.
+     * @param {number} startNoted initial value
+     */
+    constructor(startNoted) {
+        // comment first in a body
+        this.countNoted = startNoted;
+        // comment last in a body
+    }
+
+    /** Doc comment of a getter. */
+    get labelNoted() {
+        return this.#labelNotedValue; /* trailing block comment */
+    }
+
+    // line comment before a method
+    totalNoted(extraNoted) {
+        /* block comment
+           over two lines */
+        if (extraNoted) {
+            // comment first in an if body
+            return this.countNoted + extraNoted;
+        } else {
+            // the else body starts with a comment
+        }
+        return this.countNoted;
+    }
+
+    /** Doc comment of the last method. */
+    resetNoted() {
+        this.countNoted = 0;
+    }
+    // comment last in the class body
+}
+
+/** Doc comment of a function. */
+export function helperNoted(itemsNoted) {
+    const tableNoted = {
+        // comment in an object literal
+        red: itemsNoted, // trailing comment
+        /** doc comment in an object literal */
+        green: alphaNoted,
+        // comment last in an object literal
+    };
+    switch (itemsNoted.length) {
+        // comment before a case
+        case 0:
+            return null; // trailing comment
+        /* block comment before default */
+        default:
+            break;
+    }
+    return itemsNoted.map((entryNoted) => {
+        // comment first in an arrow body
+        return tableNoted ?? entryNoted;
+    } /* comment before the closing parenthesis */);
+}
+// comment last in the file
+'''
+
+
+def n_lines(text: str) -> int:
+    return len(text.split("\n")) - (1 if text.endswith("\n") else 0)
